@@ -10,7 +10,8 @@
    encoder protects packets whose padding is carried in the payload").  [fec_payload_s zero buf ps ...]
    is the XOR loop of encodeFlexFecPacket with an explicit scratch buffer whose initial content [buf] is
    whatever the sync.Pool returned; [zero = true] is the code with clear(tmpMediaPacketBuf[:packetSize]).
-   [encode_fec_s zero env pl e ms n] is the whole encoder over structured packets; [env : nat -> list Z ->
+   [encode_fec_s zero fixpad env pl e ms n] is the whole encoder over structured packets ([fixpad = true]:
+   with the padding-in-the-payload commit); [env : nat -> list Z ->
    list Z] decides what the t-th Pool.Get returns given what was Put last - ANY function.
    [ia_run copy st s evs]: the interceptor when the caller owns and re-uses its buffers; [copy = true] is
    the code with the batch buffer holding copies. *)
@@ -30,7 +31,7 @@ Print Assumptions C14_scratch_irrelevant.
 (* every history of EncodeFec calls over structured packets, whatever the pool does between and inside
    the calls: the results are those of the byte-level model (to which all theorems of C14.v apply) *)
 Theorem C14_scratch_history : forall env bs pl e,
-  run_batches_s true env pl e bs = run_batches2 (abs_enc e) (map (fun b => (map wire (fst b), snd b)) bs).
+  run_batches_s true true env pl e bs = run_batches2 (abs_enc e) (map (fun b => (map wire (fst b), snd b)) bs).
 Proof. exact run_batches_s_abs. Qed.
 Print Assumptions C14_scratch_history.
 
@@ -48,7 +49,7 @@ Print Assumptions C14_scratch_unzeroed_refuted.
    names only packets of the batch and recovers each of them as it is on the wire; every packet is named *)
 Theorem C14_recover_single_loss_structured : forall env pl e ms n e' rs pl',
   enc_inv_s e -> media_ok (map wire ms) -> 1 <= n ->
-  encode_fec_s true env pl e ms n = (e', Ok (Some rs), pl') ->
+  encode_fec_s true true env pl e ms n = (e', Ok (Some rs), pl') ->
   (forall r, In r rs ->
     exists h, parse03 (r_payload r) = Some h /\ f_pos h <> [] /\
               forall pos, In pos (f_pos h) ->
@@ -57,9 +58,22 @@ Theorem C14_recover_single_loss_structured : forall env pl e ms n e' rs pl',
 Proof. exact recover_structured. Qed.
 Print Assumptions C14_recover_single_loss_structured.
 
+(* the code before "fix: flexfec-03 encoder protects packets whose padding is carried in the payload"
+   ([fixpad = false]) is refuted: an accepted batch of three packets, the middle one with its padding inside
+   the payload - one FEC packet: the answer is an empty list (with the fix: one repair packet); two FEC
+   packets: only the repair packet naming 0 and 2 comes out, packet 1 is protected by nothing *)
+Theorem C14_unfixed_padding_in_payload_refuted :
+  media_ok (map wire ms3) /\ accepts2 (map wire ms3) 1 /\
+  snd (fst (encode_fec_s true false (fun _ b => b) (0%nat, []) (new_encoder_s 115 7) ms3 1)) = Ok (Some []) /\
+  (exists r, snd (fst (encode_fec_s true true (fun _ b => b) (0%nat, []) (new_encoder_s 115 7) ms3 1)) = Ok (Some [r])) /\
+  (exists r h, snd (fst (encode_fec_s true false (fun _ b => b) (0%nat, []) (new_encoder_s 115 7) ms3 2)) = Ok (Some [r]) /\
+               parse03 (r_payload r) = Some h /\ f_pos h = [0; 2]).
+Proof. exact unfixed_padding_in_payload_refuted. Qed.
+Print Assumptions C14_unfixed_padding_in_payload_refuted.
+
 Theorem C14_structured_reachable : forall pt ssrc,
   enc_inv_s (new_encoder_s pt ssrc) /\
-  forall env pl e ms n, enc_inv_s e -> enc_inv_s (fst (fst (encode_fec_s true env pl e ms n))).
+  forall env pl e ms n, enc_inv_s e -> enc_inv_s (fst (fst (encode_fec_s true true env pl e ms n))).
 Proof. intros. split; [apply new_encoder_s_inv|intros; now apply encode_fec_s_inv]. Qed.
 Print Assumptions C14_structured_reachable.
 
@@ -127,6 +141,14 @@ Theorem C14_interceptor_batch_any_n : forall s p,
 Proof. exact icpt_batch2. Qed.
 Print Assumptions C14_interceptor_batch_any_n.
 
+(* interceptor + encoder + pool in one model: every write history over structured packets, whatever the
+   pool does, is the history of the byte-level interceptor on the wire forms (to which
+   C14_interceptor_history_total and, batch by batch, C14_recover_single_loss_any_n apply) *)
+Theorem C14_interceptor_structured : forall env ws pl s,
+  is_run env pl s ws = i_run2 (abs_is s) (map wire ws).
+Proof. exact is_run_abs. Qed.
+Print Assumptions C14_interceptor_structured.
+
 (* the batch buffer holds copies: whatever the caller does with its header/payload buffers after Write
    returned (here: refills and rewrites them, any reuse pattern), the interceptor behaves as on values *)
 Theorem C14_interceptor_copy_isolates : forall evs st s, copies_only s ->
@@ -175,7 +197,7 @@ Print Assumptions C14_oracle_sound_history.
    40 bytes of ff (so the larger packets take the fallback allocation): three repair packets *)
 Example C14_example_structured :
   media_ok (map wire ms3) /\ accepts2 (map wire ms3) 4294967295 /\
-  match encode_fec_s true (fun _ _ => repeat 255 20) (0%nat, []) (new_encoder_s 115 7) ms3 4294967295 with
+  match encode_fec_s true true (fun _ _ => repeat 255 20) (0%nat, []) (new_encoder_s 115 7) ms3 4294967295 with
   | (_, Ok (Some [r0; r1; r2]), _) =>
       option_map f_pos (parse03 (r_payload r0)) = Some [0] /\
       option_map f_pos (parse03 (r_payload r2)) = Some [2] /\ r_sn r2 = 1002
